@@ -13,6 +13,7 @@ PROP = {
         "quick": [B("stable"), B("nightly", 0.25, False)],
         "thorough": [B("stable"), B("nightly", 0.5, False)],
     },
+    "volume": {"quick": 5},
     "technique": "property-based testing: proptest generators of unit quaternions (uniform S^3, near-identity, near-half-turn, single-axis, placed on every branch threshold), affine maps and "
                  "random walks in the conversion graph; oracle = the action of the start object evaluated in f64 / double-double, bit-exactness for re-packaging edges, "
                  "tolerances accumulated per lossy edge; SSE2, scalar-math and nightly core-simd builds",
